@@ -142,6 +142,9 @@ func newApp(key string, except []string, withMW bool, w *world) *fiber.App {
 }
 
 func newAppCfg(fc fiber.Config, key string, except []string, withMW bool, w *world) *fiber.App {
+	if fc.ReadBufferSize == 0 {
+		fc.ReadBufferSize = 32 * 1024 // several long names / values per request also over the wire
+	}
 	app := fiber.New(fc)
 	if withMW {
 		app.Use(mw.New(mw.Config{Key: key, Except: except}))
@@ -291,10 +294,21 @@ func genExceptValue(r *gen.Rand) string {
 	return "x" + r.StringFrom(cookieSafe, r.Range(0, 24))
 }
 
+// nameLengths: besides the short names of the pool (1, 2, ... characters) cookie names around
+// the powers of two and long ones; a name is a token of any length.
+var nameLengths = []int{31, 32, 33, 63, 64, 65, 100, 255}
+
 func pickNames(r *gen.Rand, n int) []string {
 	p := append([]string(nil), namePool...)
 	gen.Shuffle(r, p)
-	return p[:n]
+	p = p[:n]
+	for i := range p {
+		if r.Chance(1, 5) {
+			l := gen.Pick(r, nameLengths)
+			p[i] = p[i] + "_" + r.StringFrom(gen.AlphaNum+"-_.", l-len(p[i])-1)
+		}
+	}
+	return p
 }
 
 func hexs(s string) string { return hex.EncodeToString([]byte(s)) }
@@ -432,6 +446,9 @@ func script(e *ev.Env, c *ev.Case, keyRaw []byte, key string, except []string, c
 							map[string]any{"config": cfg, "name": ck.name, "with": printable(wc.line), "without": printable(b.line)})
 					} else {
 						stat(e, "except_wire_identical", 1)
+						if len(ck.name) >= 64 {
+							stat(e, "except_wire_identical_name_of_64_or_more", 1)
+						}
 					}
 				}
 				jar.Store(wc.line, t0)
@@ -548,6 +565,9 @@ func script(e *ev.Env, c *ev.Case, keyRaw []byte, key string, except []string, c
 					e.Violation(c, "except|request|altered", "excepted cookie seen differently with and without the middleware", det())
 				} else {
 					stat(e, "except_request_identical", 1)
+					if len(ck.name) >= 64 {
+						stat(e, "except_request_identical_name_of_64_or_more", 1)
+					}
 				}
 				continue
 			}
